@@ -11,6 +11,10 @@ import torch
 
 from vlib.oracles import routing as R
 
+# envs whose reset state is sized from the instance handed over (ATSP, PDP, mTSP, MDCPDP size it from their generator: instances of
+# another size are not supported by them)
+SIZE_AGNOSTIC = {"tsp", "cvrp", "cvrptw", "sdvrp", "svrp", "op", "mtvrp"}  # PCTSP / SPCTSP size `visited` from the generator as well
+
 MTVRP_PRESETS = ["cvrp", "ovrp", "vrpb", "vrpl", "vrptw", "ovrptw", "ovrpb", "ovrpl", "vrpbl", "vrpbtw", "vrpltw", "ovrpbl",
                  "ovrpbtw", "ovrpltw", "vrpbltw", "ovrpbltw", "all", "single_feat", "single_feat_otw"]
 
